@@ -211,8 +211,41 @@ async fn episode(p: &EpParams) -> EpReport {
             }
             _ => {
                 // deadline expiry reached by advancing the clock
-                w.advance(Duration::from_millis(rng.range(9_000, 11_500))).await;
-                shape.push("expire".into());
+                if rng.chance(1, 2) {
+                    w.advance(Duration::from_millis(rng.range(9_000, 11_500))).await;
+                    shape.push("expire".into());
+                } else {
+                    // ... with other requests on their way to the subscription when the clock
+                    // jumps: the actor finds its mailbox and its expiry timer ready in the same
+                    // instant (acks of one lease of a batch, look-ups, acks of unknown IDs)
+                    let n = rng.range(1, 6);
+                    for i in 0..n {
+                        let cx = Cx::new(&w, 50 + i as u32);
+                        let s2 = s.clone();
+                        match rng.below(3) {
+                            0 => {
+                                tokio::spawn(async move {
+                                    let _ = cx.get_sub(&s2).await;
+                                });
+                            }
+                            1 if !known_leases.is_empty() => {
+                                let id = known_leases.remove(0);
+                                tokio::spawn(async move {
+                                    let _ = cx.ack(&s2, &[id]).await;
+                                });
+                            }
+                            _ => {
+                                tokio::spawn(async move {
+                                    let _ = cx.ack(&s2, &["987654".to_string()]).await;
+                                });
+                            }
+                        }
+                    }
+                    tokio::time::advance(Duration::from_millis(rng.range(9_000, 11_500))).await;
+                    w.barrier().await;
+                    shape.push(format!("expire+{}reqs", n));
+                    rep.inc("expiries_with_requests_in_flight");
+                }
                 cause = "expiry";
             }
         }
